@@ -445,6 +445,22 @@ func (x *Exec) Done(name string) bool {
 	return th != nil && th.done
 }
 
+// LiveMatching reports whether a thread whose name contains sub may still be running. During
+// teardown (free mode) spawned goroutines are not tracked, so the answer is then always true.
+func (x *Exec) LiveMatching(sub string) bool {
+	if x.free.Load() || x.aborting.Load() {
+		return true
+	}
+	x.mu.Lock()
+	defer x.mu.Unlock()
+	for n, th := range x.byName {
+		if !th.done && strings.Contains(n, sub) {
+			return true
+		}
+	}
+	return false
+}
+
 func (x *Exec) sortedThreads() []*Thread {
 	ths := make([]*Thread, 0, len(x.byName))
 	for _, th := range x.byName {
